@@ -5,9 +5,9 @@ use crate::ftypes::leak;
 use crate::points::*;
 use crate::with_group;
 use num_bigint::BigUint;
-use num_traits::One;
+use num_traits::{One, Zero};
 use proptest::prelude::*;
-use refmodel::curves::RefGroup;
+use refmodel::curves::{Pt, RefGroup};
 use refmodel::pf;
 use serde::{Deserialize, Serialize};
 
@@ -217,8 +217,16 @@ pub fn dec_strategy(g: usize, class: usize) -> BoxedStrategy<Vec<u8>> {
             2 | 3 => {
                 // every prefix byte with a valid body; hybrid encodings; y perturbed; x with no point
                 let w = if g == 2 { &refs().p256 } else { &refs().secp256k1 };
-                (enc_strategy(g), 0u8..=8, any::<bool>(), 0usize..4)
-                    .prop_map(move |(e, pre, long, m)| {
+                (enc_strategy(g), 0u8..=8, any::<bool>(), 0usize..9, any::<usize>(), prop::collection::vec(any::<u8>(), 32))
+                    .prop_map(move |(e, pre, long, m, idx, raw)| {
+                        let q = enc_modulus(g);
+                        // a point with a small (or zero) abscissa, so that x + p is representable on 32 bytes
+                        let small = crate::points::small_coord_encodings(g);
+                        let (sx, sy) = match rg(g).decode(&small[idx % small.len()]) { Some(Pt::A(x, y)) => (x, y), _ => (BigUint::zero(), BigUint::zero()) };
+                        // a non-canonical 32-byte integer (>= p)
+                        let span = (BigUint::one() << 256usize) - &q;
+                        let big = match idx % 4 { 0 => q.clone(), 1 => &q + 1u32, 2 => (BigUint::one() << 256usize) - 1u32, _ => &q + (pf::from_le(&raw) % &span) };
+                        let unc = |x: &BigUint, y: &BigUint| { let mut v = vec![4u8]; v.extend(pf::to_be(x, 32)); v.extend(pf::to_be(y, 32)); v };
                         let pt = rg(g).decode(&e).unwrap();
                         let mut b = if long { w.encode_uncompressed(&pt) } else { e.clone() };
                         match m {
@@ -233,9 +241,32 @@ pub fn dec_strategy(g: usize, class: usize) -> BoxedStrategy<Vec<u8>> {
                                 let l = b.len() - 1;
                                 b[l] ^= 1;
                             }
-                            _ => {
+                            3 => {
                                 // all-zero fixed-length strings (what the encoders emit for the neutral)
                                 b = vec![0u8; if long { 65 } else { 33 }];
+                            }
+                            4 => {
+                                // x + p with the matching y (the same point written non-canonically)
+                                let xp = &sx + &q;
+                                if xp.bits() <= 256 { b = unc(&xp, &sy); }
+                            }
+                            5 => {
+                                // an out-of-range X next to the y of a small-abscissa point (x = 0 included): a decoder that
+                                // replaces the invalid coordinate by 0 and keeps going would accept it
+                                b = unc(&big, &sy);
+                            }
+                            6 => {
+                                // a valid X next to an out-of-range Y
+                                b = unc(&sx, &big);
+                            }
+                            7 => {
+                                // compressed, x + p
+                                let xp = &sx + &q;
+                                if xp.bits() <= 256 { b = vec![2 | (sy.bit(0) as u8)]; b.extend(pf::to_be(&xp, 32)); }
+                            }
+                            _ => {
+                                // compressed, out-of-range X
+                                b = vec![2 | (pre & 1)]; b.extend(pf::to_be(&big, 32));
                             }
                         }
                         b
